@@ -74,6 +74,9 @@ pub fn dispatch(_ctx: &mut Ctx, op: &str, f: &[&str]) -> Option<String> {
         )),
         "U8" => Some(std_decode(&hex_decode(f.get(2).copied().unwrap_or("")))),
         // further families live in their own files (fam_cxx.rs); chain them here
-        _ => crate::fam_c33::dispatch(_ctx, op, f),
+        _ => match crate::fam_c33::dispatch(_ctx, op, f) {
+            Some(s) => Some(s),
+            None => crate::fam_c32::dispatch(_ctx, op, f),
+        },
     }
 }
